@@ -1379,6 +1379,29 @@ def r_val_sib(E):
             val = norm(c.args[1])
             recv = norm(_fx_v(c.func.value, host))
             name_arg = norm(_fx_v(c.args[0], host))
+            # a small record of the module (NamedTuple / dataclass) that names the pair and derives the container / the
+            # attribute name from one of its fields with a property: `change.modeling_obj_container` reads as the
+            # property's expression on `change`
+            mtree = next((t for m_, (r_, t, _s) in pm.modules.items() if r_ == r), None)
+            for rc in [x for x in (mtree.body if mtree is not None else []) if isinstance(x, ast.ClassDef)]:
+                fields = {b.target.id for b in rc.body if isinstance(b, ast.AnnAssign) and isinstance(b.target, ast.Name)}
+                props = {}
+                for f_ in [b for b in rc.body if isinstance(b, ast.FunctionDef) and is_property(b)]:
+                    body_ = [b for b in f_.body if not (isinstance(b, ast.Expr) and isinstance(b.value, ast.Constant))]
+                    if len(body_) == 1 and isinstance(body_[0], ast.Return) and body_[0].value is not None:
+                        props[f_.name] = norm(body_[0].value)
+                if not fields or not props or "." not in val:
+                    continue
+                base_, fld = val.rsplit(".", 1)
+                if fld not in fields:
+                    continue
+
+                def through(txt):
+                    if txt.startswith(base_ + ".") and txt[len(base_) + 1:] in props:
+                        body_txt = props[txt[len(base_) + 1:]]
+                        return (base_ + body_txt[4:]) if body_txt.startswith("self.") else txt
+                    return txt
+                recv, name_arg = through(recv), through(name_arg)
             res.instances += 1
             if recv != f"{val}.modeling_obj_container" or name_arg != f"{val}.attr_name_in_mod_obj_container":
                 res.findings.append(Finding(
